@@ -161,8 +161,31 @@ def build_sim(case):
     return m, chips
 
 
+def run_empty(ctx):
+    """a description without any chip (nothing answered)"""
+    mcm = importlib.import_module("rig.machine_control.machine_controller")
+    pr_utils = importlib.import_module("rig.place_and_route.utils")
+    par = importlib.import_module("rig.place_and_route")
+    for w, h in ((0, 0), (3, 2)):
+        si = mcm.SystemInfo(w, h)
+        machine = pr_utils.build_machine(si)
+        check((machine.width, machine.height) == (w, h) and
+              list(machine) == [] and
+              machine.chip_resources.get(par.Cores) == 0,
+              "empty-machine-model", "%r %r" % (list(machine),
+                                                machine.chip_resources))
+        check(set(machine.dead_chips) == {(x, y) for x in range(w)
+                                          for y in range(h)},
+              "empty-machine-dead-chips", repr(machine.dead_chips))
+        check(pr_utils.build_core_constraints(si) == [],
+              "empty-machine-constraints", "")
+    ctx.hit("empty_description")
+
+
 def run(case, ctx):
     import random
+    if case.get("w") == 1 and case.get("h") == 1 and not case["probes"][0]["iobuf"]:
+        run_empty(ctx)
     m, chips = build_sim(case)
     r = M.Rig(m, n_tries=2, timeout=0.1)
     mc, mcm = r.mc, r.mcm
